@@ -213,15 +213,15 @@ Proof.
   lia.
 Qed.
 
-Lemma extract_scope_ok w sz s cap e rest er rc :
-  wf_s w sz s -> extract_scope w sz s cap = (e, rest, er) ->
+Lemma extract_scope_ok w sz szx s cap e rest er rc :
+  wf_s w sz s -> extract_scope w szx s cap = (e, rest, er) ->
   Permutation (iflat_scope rc e ++ iflat_scope rc rest) (iflat_scope rc s) /\ wf_s w sz rest /\
   (scope_nonempty e = false -> iflat_scope rc e = []).
 Proof.
   unfold extract_scope. intros [Hh Hi] H.
-  destruct (walk sz (item_size w sz) None (fun _ => true) (sitems s) _ 0) as [[d k] rm] eqn:E.
+  destruct (walk szx (item_size w szx) None (fun _ => true) (sitems s) _ 0) as [[d k] rm] eqn:E.
   inversion H; subst; clear H.
-  destruct (walk_perm sz (item_size w sz) None (fun _ => true) (fun i => [(i, rc, sctx s)]) (wf_i w sz)
+  destruct (walk_perm szx (item_size w szx) None (fun _ => true) (fun i => [(i, rc, sctx s)]) (wf_i w sz)
               (fun ex Hex => ltac:(discriminate Hex)) _ _ _ _ _ _ Hi E) as [Hp Hk].
   rewrite !concat_map_single in Hp.
   unfold iflat_scope; simpl. split; [exact Hp|]. split; [split; assumption|].
@@ -242,19 +242,19 @@ Proof.
   unfold N_s, scope_size; cbn [sitems]. rewrite sumZf_ones' in L. lia.
 Qed.
 
-Lemma extract_res_ok w sz r cap e rest er :
-  wf_r w sz r -> extract_res w sz r cap = (e, rest, er) ->
+Lemma extract_res_ok w sz szx r cap e rest er :
+  wf_r w sz r -> extract_res w szx r cap = (e, rest, er) ->
   Permutation (iflat_res e ++ iflat_res rest) (iflat_res r) /\ wf_r w sz rest /\ (res_nonempty e = false -> iflat_res e = []).
 Proof.
   unfold extract_res. intros [Hh Hs] H.
-  destruct (walk sz (scope_size w sz) (Some (extract_scope w sz)) scope_nonempty (rscopes r) _ 0) as [[d k] rm] eqn:E.
+  destruct (walk szx (scope_size w szx) (Some (extract_scope w szx)) scope_nonempty (rscopes r) _ 0) as [[d k] rm] eqn:E.
   inversion H; subst; clear H.
-  assert (Hpart : forall ex, Some (extract_scope w sz) = Some ex -> forall c cap0 e0 rest0 er0,
+  assert (Hpart : forall ex, Some (extract_scope w szx) = Some ex -> forall c cap0 e0 rest0 er0,
             wf_s w sz c -> ex c cap0 = (e0, rest0, er0) ->
             Permutation (iflat_scope (rctx r) e0 ++ iflat_scope (rctx r) rest0) (iflat_scope (rctx r) c) /\ wf_s w sz rest0 /\
             (scope_nonempty e0 = false -> iflat_scope (rctx r) e0 = [])).
-  { intros ex Hex; inversion Hex; subst. intros c cap0 e0 rest0 er0 Hc Hx. exact (extract_scope_ok w sz c cap0 e0 rest0 er0 (rctx r) Hc Hx). }
-  destruct (walk_perm sz (scope_size w sz) (Some (extract_scope w sz)) scope_nonempty (iflat_scope (rctx r)) (wf_s w sz)
+  { intros ex Hex; inversion Hex; subst. intros c cap0 e0 rest0 er0 Hc Hx. exact (extract_scope_ok w sz szx c cap0 e0 rest0 er0 (rctx r) Hc Hx). }
+  destruct (walk_perm szx (scope_size w szx) (Some (extract_scope w szx)) scope_nonempty (iflat_scope (rctx r)) (wf_s w sz)
               Hpart _ _ _ _ _ _ Hs E) as [Hp Hk].
   unfold iflat_res; simpl. split; [exact Hp|]. split; [split; assumption|].
   unfold res_nonempty; simpl. destruct d; simpl; [reflexivity|discriminate].
@@ -286,16 +286,16 @@ Proof.
   unfold N_r, items_of_res, res_size; cbn [rscopes]. rewrite N_s_sum in L. lia.
 Qed.
 
-Lemma extract_payload_perm w sz p cap d k rm :
-  wf_p w sz p -> extract_payload w sz p cap = (d, k, rm) ->
+Lemma extract_payload_perm w sz szx p cap d k rm :
+  wf_p w sz p -> extract_payload w szx p cap = (d, k, rm) ->
   Permutation (iflat d ++ iflat k) (iflat p) /\ wf_p w sz k.
 Proof.
   unfold extract_payload. intros Hwf E.
-  assert (Hpart : forall ex, Some (extract_res w sz) = Some ex -> forall c cap0 e0 rest0 er0,
+  assert (Hpart : forall ex, Some (extract_res w szx) = Some ex -> forall c cap0 e0 rest0 er0,
             wf_r w sz c -> ex c cap0 = (e0, rest0, er0) ->
             Permutation (iflat_res e0 ++ iflat_res rest0) (iflat_res c) /\ wf_r w sz rest0 /\ (res_nonempty e0 = false -> iflat_res e0 = [])).
-  { intros ex Hex; inversion Hex; subst. intros c cap0 e0 rest0 er0 Hc Hx. exact (extract_res_ok w sz c cap0 e0 rest0 er0 Hc Hx). }
-  exact (walk_perm sz (res_size w sz) (Some (extract_res w sz)) res_nonempty iflat_res (wf_r w sz) Hpart _ _ _ _ _ _ Hwf E).
+  { intros ex Hex; inversion Hex; subst. intros c cap0 e0 rest0 er0 Hc Hx. exact (extract_res_ok w sz szx c cap0 e0 rest0 er0 Hc Hx). }
+  exact (walk_perm szx (res_size w szx) (Some (extract_res w szx)) res_nonempty iflat_res (wf_r w sz) Hpart _ _ _ _ _ _ Hwf E).
 Qed.
 
 (* the removed size reported by an extraction is at least the number of items of the extracted payload *)
@@ -335,16 +335,23 @@ Proof.
     rewrite iflat_reqs_app. unfold iflat_reqs at 2; simpl. now rewrite app_nil_r.
   - destruct (cached >? max).
     + destruct (extract_payload w sz p max) as [[d k] rm] eqn:E.
-      destruct (extract_payload_perm _ _ _ _ _ _ _ Hw E) as [Hp Hwk].
+      destruct (extract_payload_perm _ _ _ _ _ _ _ _ Hw E) as [Hp Hwk].
       pose proof (extract_payload_removed _ _ _ _ _ _ _ Hw E) as Hrm.
       destruct (rm <=? 0) eqn:Eb.
-      * (* break: nothing was removed, so the discarded payload holds no item *)
+      * (* nothing was removed, so the discarded payload holds no item *)
         apply Z.leb_le in Eb.
         assert (Hd : iflat d = []).
         { assert (Hi : items_of d = []) by (destruct (items_of d); [reflexivity|cbn [length] in Hrm; lia]).
           rewrite items_iflat in Hi. destruct (iflat d); [reflexivity|discriminate]. }
-        inversion H; subst. rewrite iflat_reqs_app. unfold iflat_reqs at 2; simpl. rewrite app_nil_r.
-        apply Permutation_app_head. rewrite <- Hp, Hd. reflexivity.
+        rewrite Hd in Hp. cbn [app] in Hp.
+        destruct (first_weight w (items_of k) =? 0).
+        -- inversion H; subst. rewrite iflat_reqs_app. unfold iflat_reqs at 2; simpl. rewrite app_nil_r.
+           apply Permutation_app_head. exact Hp.
+        -- (* the first item is cut out with the count sizer and the loop goes on *)
+           destruct (extract_payload w Items k (first_weight w (items_of k))) as [[d1 k1] rm1] eqn:E1.
+           destruct (extract_payload_perm _ _ _ _ _ _ _ _ Hwk E1) as [Hp1 Hwk1].
+           apply IH in H; [|exact Hwk1]. rewrite H, iflat_reqs_app. unfold iflat_reqs at 2; simpl. rewrite app_nil_r, <- app_assoc.
+           apply Permutation_app_head. rewrite Hp1. exact Hp.
       * apply IH in H; [|exact Hwk]. rewrite H, iflat_reqs_app. unfold iflat_reqs at 2; simpl. rewrite app_nil_r, <- app_assoc.
         apply Permutation_app_head. exact Hp.
     + inversion H; subst. rewrite iflat_reqs_app. unfold iflat_reqs at 2; simpl. now rewrite app_nil_r.
@@ -381,23 +388,6 @@ Lemma merge_split_conserves_unit_l : forall max a b out,
   Permutation (flat_reqs out) (flat (rp a) ++ flat_opt b).
 Proof.
   intros max a b out. apply merge_split_conserves_l; [apply wf_p_unit_items|destruct b; simpl; [apply wf_p_unit_items|exact I]].
-Qed.
-
-(* ---- termination, for every payload, both sizers, every max, every weight function -------------- *)
-(* each continuing iteration lowers the memo by at least 1 and the loop runs only while the memo exceeds max *)
-Lemma split_loop_total : forall fuel w sz max p cached acc,
-  (Z.to_nat (cached - max) < fuel)%nat -> exists out, split_loop fuel w sz max p cached acc = Some out.
-Proof.
-  induction fuel as [|f IH]; intros w sz max p cached acc Hf; [lia|]. cbn [split_loop].
-  destruct (cached >? max) eqn:Eg; [|eauto]. rewrite Z.gtb_ltb in Eg. apply Z.ltb_lt in Eg.
-  destruct (extract_payload w sz p max) as [[d k] rm].
-  destruct (rm <=? 0) eqn:Eb; [eauto|]. apply Z.leb_gt in Eb.
-  apply IH. lia.
-Qed.
-
-Lemma merge_split_total w sz max a b : exists out, merge_split w sz max a b = Some out.
-Proof.
-  unfold merge_split. destruct (max =? 0); [eauto|]. apply split_loop_total. unfold fuel_of. lia.
 Qed.
 
 (* ---------------------------------------------------------------------------------------- *)
@@ -603,6 +593,88 @@ Proof.
   exact (walk_perm sz (mres_size sz) (Some (extract_mres sz)) mres_nonempty nflat_res (wf_mres sz) Hpart _ _ _ _ _ _ Hwf E).
 Qed.
 
+(* the same with a second well-formedness carried along: extraction with sizer sz of a payload that is also
+   well-formed for sizer szp leaves a remainder well-formed for both (used when the count sizer cuts out one point) *)
+Definition wf2_metric sz szp m := wf_metric sz m /\ wf_metric szp m.
+Definition wf2_mscope sz szp s := wf_mscope sz s /\ wf_mscope szp s.
+Definition wf2_mres sz szp r := wf_mres sz r /\ wf_mres szp r.
+
+Lemma Forall_conj {A} (P Q : A -> Prop) l : Forall P l -> Forall Q l -> Forall (fun x => P x /\ Q x) l.
+Proof. intros HP HQ. apply Forall_forall. intros x Hx. split; [exact (proj1 (Forall_forall _ _) HP x Hx)|exact (proj1 (Forall_forall _ _) HQ x Hx)]. Qed.
+Lemma Forall_conj_l {A} (P Q : A -> Prop) l : Forall (fun x => P x /\ Q x) l -> Forall P l /\ Forall Q l.
+Proof. intros H. split; eapply Forall_impl; try exact H; intros a [X Y]; assumption. Qed.
+
+Lemma extract_metric_ok2 sz szp m cap e rest er rc sc :
+  wf2_metric sz szp m -> extract_metric sz m cap = (e, rest, er) ->
+  Permutation (nflat_metric rc sc e ++ nflat_metric rc sc rest) (nflat_metric rc sc m) /\ wf2_metric sz szp rest /\
+  (metric_keep sz e = false -> nflat_metric rc sc e = []).
+Proof.
+  intros [H1 H2] H. destruct (extract_metric_ok sz m cap e rest er rc sc H1 H) as [A [B C]].
+  split; [exact A|]. split; [split; [exact B|]|exact C].
+  unfold extract_metric in H. destruct (mkind m =? 0); [inversion H; subst; exact H2|].
+  destruct H2 as [G1 [G2 G3]].
+  destruct (walk sz (point_size sz) None (fun _ => true) (mpts m) _ 0) as [[d k] rm] eqn:E. inversion H; subst.
+  repeat split; auto. cbn [mpts]. apply Forall_forall. intros x Hx.
+  apply (proj1 (Forall_forall _ _) G3).
+  destruct (walk_perm sz (point_size sz) None (fun _ => true) (fun i => [i]) (fun _ => True)
+              (fun ex Hex => ltac:(discriminate Hex)) _ _ _ _ _ _ (proj2 (Forall_forall _ _) (fun _ _ => I)) E) as [Hp _].
+  rewrite !concat_map_single, !map_id in Hp. eapply Permutation_in; [exact Hp|]. apply in_or_app. now right.
+Qed.
+
+Lemma extract_mscope_ok2 sz szp s cap e rest er rc :
+  wf2_mscope sz szp s -> extract_mscope sz s cap = (e, rest, er) ->
+  Permutation (nflat_scope rc e ++ nflat_scope rc rest) (nflat_scope rc s) /\ wf2_mscope sz szp rest /\
+  (mscope_nonempty e = false -> nflat_scope rc e = []).
+Proof.
+  unfold extract_mscope. intros [[Hh Hwf] [Hh' Hwf']] H.
+  destruct (walk sz (metric_size sz) (Some (extract_metric sz)) (metric_keep sz) (msmetrics s) _ 0) as [[d k] rm] eqn:E.
+  inversion H; subst; clear H.
+  assert (Hpart : forall ex, Some (extract_metric sz) = Some ex -> forall c cap0 e0 rest0 er0,
+            wf2_metric sz szp c -> ex c cap0 = (e0, rest0, er0) ->
+            Permutation (nflat_metric rc (msctx s) e0 ++ nflat_metric rc (msctx s) rest0) (nflat_metric rc (msctx s) c) /\
+            wf2_metric sz szp rest0 /\ (metric_keep sz e0 = false -> nflat_metric rc (msctx s) e0 = [])).
+  { intros ex Hex; inversion Hex; subst. intros c cap0 e0 rest0 er0 Hc Hx. exact (extract_metric_ok2 sz szp c cap0 e0 rest0 er0 rc (msctx s) Hc Hx). }
+  destruct (walk_perm sz (metric_size sz) (Some (extract_metric sz)) (metric_keep sz) (nflat_metric rc (msctx s)) (wf2_metric sz szp)
+              Hpart _ _ _ _ _ _ (Forall_conj _ _ _ Hwf Hwf') E) as [Hp Hk].
+  destruct (Forall_conj_l _ _ _ Hk) as [K1 K2].
+  unfold nflat_scope; simpl. split; [exact Hp|]. split; [split; split; assumption|].
+  unfold mscope_nonempty; simpl. destruct d; simpl; [reflexivity|discriminate].
+Qed.
+
+Lemma extract_mres_ok2 sz szp r cap e rest er :
+  wf2_mres sz szp r -> extract_mres sz r cap = (e, rest, er) ->
+  Permutation (nflat_res e ++ nflat_res rest) (nflat_res r) /\ wf2_mres sz szp rest /\
+  (mres_nonempty e = false -> nflat_res e = []).
+Proof.
+  unfold extract_mres. intros [[Hh Hwf] [Hh' Hwf']] H.
+  destruct (walk sz (mscope_size sz) (Some (extract_mscope sz)) mscope_nonempty (mrscopes r) _ 0) as [[d k] rm] eqn:E.
+  inversion H; subst; clear H.
+  assert (Hpart : forall ex, Some (extract_mscope sz) = Some ex -> forall c cap0 e0 rest0 er0,
+            wf2_mscope sz szp c -> ex c cap0 = (e0, rest0, er0) ->
+            Permutation (nflat_scope (mrctx r) e0 ++ nflat_scope (mrctx r) rest0) (nflat_scope (mrctx r) c) /\
+            wf2_mscope sz szp rest0 /\ (mscope_nonempty e0 = false -> nflat_scope (mrctx r) e0 = [])).
+  { intros ex Hex; inversion Hex; subst. intros c cap0 e0 rest0 er0 Hc Hx. exact (extract_mscope_ok2 sz szp c cap0 e0 rest0 er0 (mrctx r) Hc Hx). }
+  destruct (walk_perm sz (mscope_size sz) (Some (extract_mscope sz)) mscope_nonempty (nflat_scope (mrctx r)) (wf2_mscope sz szp)
+              Hpart _ _ _ _ _ _ (Forall_conj _ _ _ Hwf Hwf') E) as [Hp Hk].
+  destruct (Forall_conj_l _ _ _ Hk) as [K1 K2].
+  unfold nflat_res; simpl. split; [exact Hp|]. split; [split; split; assumption|].
+  unfold mres_nonempty; simpl. destruct d; simpl; [reflexivity|discriminate].
+Qed.
+
+Lemma extract_mpayload_perm2 sz szp p cap d k rm :
+  wf_mpayload sz p -> wf_mpayload szp p -> extract_mpayload sz p cap = (d, k, rm) ->
+  Permutation (nflat d ++ nflat k) (nflat p) /\ wf_mpayload szp k.
+Proof.
+  unfold extract_mpayload. intros Hwf Hwf' E.
+  assert (Hpart : forall ex, Some (extract_mres sz) = Some ex -> forall c cap0 e0 rest0 er0,
+            wf2_mres sz szp c -> ex c cap0 = (e0, rest0, er0) ->
+            Permutation (nflat_res e0 ++ nflat_res rest0) (nflat_res c) /\ wf2_mres sz szp rest0 /\
+            (mres_nonempty e0 = false -> nflat_res e0 = [])).
+  { intros ex Hex; inversion Hex; subst. intros c cap0 e0 rest0 er0 Hc Hx. exact (extract_mres_ok2 sz szp c cap0 e0 rest0 er0 Hc Hx). }
+  destruct (walk_perm sz (mres_size sz) (Some (extract_mres sz)) mres_nonempty nflat_res (wf2_mres sz szp) Hpart _ _ _ _ _ _ (Forall_conj _ _ _ Hwf Hwf') E) as [Hp Hk].
+  split; [exact Hp|exact (proj2 (Forall_conj_l _ _ _ Hk))].
+Qed.
+
 Lemma extract_mpayload_removed sz p cap d k rm :
   wf_mpayload sz p -> extract_mpayload sz p cap = (d, k, rm) -> Z.of_nat (length (mpoints_of d)) <= rm.
 Proof.
@@ -613,6 +685,14 @@ Proof.
   destruct (walk_bounds sz (mres_size sz) (Some (extract_mres sz)) mres_nonempty N_mr (wf_mres sz)
               (mres_Q_ok sz) Hpart _ _ _ _ _ _ Hwf E) as [L _].
   rewrite N_mr_sum in L. lia.
+Qed.
+
+(* the items sizer needs no hypothesis: every metrics payload is well-formed for it *)
+Lemma wf_mpayload_items p : wf_mpayload Items p.
+Proof.
+  apply Forall_forall. intros r _. split; [cbn; lia|]. apply Forall_forall. intros s _. split; [cbn; lia|].
+  apply Forall_forall. intros m _. split; [cbn; lia|]. split; [cbn; lia|].
+  apply Forall_forall. intros i _. unfold wf_item. cbn. lia.
 Qed.
 
 Definition nflat_reqs (l : list mreq) : list (Z * Z * Z * Z) := concat (map (fun r => nflat (mrp r)) l).
@@ -643,26 +723,20 @@ Proof.
       destruct (extract_mpayload_perm _ _ _ _ _ _ Hwf E) as [Hp Hk].
       pose proof (extract_mpayload_removed _ _ _ _ _ _ Hwf E) as Hrm.
       destruct (rm <=? 0) eqn:Eb.
-      * (* break: nothing was removed, so the discarded payload holds no data point *)
-        apply Z.leb_le in Eb.
+      * apply Z.leb_le in Eb.
         assert (Hd : nflat d = []).
         { pose proof (nflat_length d) as Hl. destruct (nflat d); [reflexivity|]. cbn [length] in Hl. lia. }
-        inversion H; subst. rewrite nflat_reqs_app. unfold nflat_reqs at 2; simpl. rewrite app_nil_r.
-        apply Permutation_app_head. rewrite <- Hp, Hd. reflexivity.
+        rewrite Hd in Hp. cbn [app] in Hp.
+        destruct (mpoints_of k) as [|x0 xs0].
+        -- inversion H; subst. rewrite nflat_reqs_app. unfold nflat_reqs at 2; simpl. rewrite app_nil_r.
+           apply Permutation_app_head. exact Hp.
+        -- destruct (extract_mpayload Items k 1) as [[d1 k1] rm1] eqn:E1.
+           destruct (extract_mpayload_perm2 Items sz _ _ _ _ _ (wf_mpayload_items k) Hk E1) as [Hp1 Hk1].
+           apply IH in H; [|exact Hk1]. rewrite H, nflat_reqs_app. unfold nflat_reqs at 2; simpl. rewrite app_nil_r, <- app_assoc.
+           apply Permutation_app_head. rewrite Hp1. exact Hp.
       * apply IH in H; [|exact Hk]. rewrite H, nflat_reqs_app. unfold nflat_reqs at 2; simpl. rewrite app_nil_r, <- app_assoc.
         apply Permutation_app_head. exact Hp.
     + inversion H; subst. rewrite nflat_reqs_app. unfold nflat_reqs at 2; simpl. now rewrite app_nil_r.
-Qed.
-
-(* termination of the metrics split: no hypothesis at all (the memo falls by at least 1 per continuing iteration) *)
-Lemma msplit_loop_total : forall fuel sz max p cached acc,
-  (Z.to_nat (cached - max) < fuel)%nat -> exists out, msplit_loop fuel sz max p cached acc = Some out.
-Proof.
-  induction fuel as [|f IH]; intros sz max p cached acc Hf; [lia|]. cbn [msplit_loop].
-  destruct (cached >? max) eqn:Eg; [|eauto]. rewrite Z.gtb_ltb in Eg. apply Z.ltb_lt in Eg.
-  destruct (extract_mpayload sz p max) as [[d k] rm].
-  destruct (rm <=? 0) eqn:Eb; [eauto|]. apply Z.leb_gt in Eb.
-  apply IH. lia.
 Qed.
 
 Definition nflat_opt (b : option mreq) : list (Z * Z * Z * Z) := match b with Some r => nflat (mrp r) | None => [] end.
@@ -683,18 +757,6 @@ Proof.
   - apply msplit_loop_perm in H; [|exact Hw]. simpl in H. now rewrite <- Hm.
 Qed.
 
-Lemma mmerge_split_total sz max a b : exists out, mmerge_split sz max a b = Some out.
-Proof.
-  unfold mmerge_split. destruct (max =? 0); [eauto|]. apply msplit_loop_total. unfold fuel_of. lia.
-Qed.
-
-(* the items sizer needs no hypothesis: every metrics payload is well-formed for it *)
-Lemma wf_mpayload_items p : wf_mpayload Items p.
-Proof.
-  apply Forall_forall. intros r _. split; [cbn; lia|]. apply Forall_forall. intros s _. split; [cbn; lia|].
-  apply Forall_forall. intros m _. split; [cbn; lia|]. split; [cbn; lia|].
-  apply Forall_forall. intros i _. unfold wf_item. cbn. lia.
-Qed.
 
 (* F4: the full statement (with the metric identity) is false of the code.  Witness: one gauge metric
    "7" with two points, items sizer, max_size 1: the first point leaves in a fragment whose identity is the
